@@ -147,6 +147,7 @@ async def _run_case(case, max_concurrent=1):
     dlog.addHandler(catcher)
     old_level, old_prop = dlog.level, dlog.propagate
     dlog.propagate = False
+    dlog.setLevel(logging.ERROR)
 
     async def refresh_ids():
         for info in await e.get_orders():
@@ -281,8 +282,24 @@ async def _run_case(case, max_concurrent=1):
                 await refresh_ids()
                 ids = [order_ids.index(o.id) for o in oo]
                 reply = [F(2), F(len(ids))] + [F(i) for i in ids]
+                # the other listings / filters of the public API against a brute-force filter of get_orders()
+                allo = await e.get_orders()
+                flt = []
+                got = [order_ids.index(o.id) for o in await e.get_orders(is_open=True)]
+                flt.append(("get_orders(is_open=True)", got, [order_ids.index(o.id) for o in allo if o.is_open]))
+                got = [order_ids.index(o.id) for o in await e.get_orders(is_open=False)]
+                flt.append(("get_orders(is_open=False)", got, [order_ids.index(o.id) for o in allo if not o.is_open]))
+                for qi, qpair in enumerate(pairs):
+                    got = [order_ids.index(o.id) for o in await e.get_orders(pair=qpair)]
+                    exp = [order_ids.index(o.id) for o in allo
+                           if order_ids.index(o.id) < len(case["_order_pairs"]) and
+                           case["_order_pairs"][order_ids.index(o.id)] == qi]
+                    flt.append((f"get_orders(pair={qi})", got, exp))
+                    got = [order_ids.index(o.id) for o in await e.get_orders(pair=qpair, is_open=True)]
+                    flt.append((f"get_orders(pair={qi}, is_open=True)", got,
+                                [i for i in exp if allo[i].is_open] if len(allo) == len(order_ids) else got))
                 await record(a, reply, {"listing": [(order_ids.index(o.id), fr(o.amount), fr(o.amount_filled),
-                                                    o.operation.name) for o in oo]})
+                                                    o.operation.name) for o in oo], "filters": flt})
                 return
             else:
                 raise ValueError(kind)
@@ -329,6 +346,7 @@ async def _run_case(case, max_concurrent=1):
     finally:
         dlog.removeHandler(catcher)
         dlog.propagate = old_prop
+        dlog.setLevel(old_level)
     ev_vec = []
     for (w, idx, info) in tr.events:
         fee = sum((fr(x) for x in info.fees.values()), F(0))
